@@ -225,6 +225,8 @@ def main(tier, seed):
                 rep.violation('piecewise:%s:exception' % name, 'nthderiv.%s raises %r' % (name, e), dict(kind='piecewise', function=name, x=str(x), n=n))
     import r9
     r9.c16_same_object(rep, nd, FUNCS, rng, tier)
+    import r10
+    r10.c16_orders_out_of_sequence(rep, nd, FUNCS, rng, tier)
     return rep.finish()
 
 
